@@ -337,6 +337,7 @@ pub fn run(ctx: &mut Ctx) {
                 let rel = prop_oneof![
                     2 => prop::collection::vec(letter(n as i64), 1..=6),
                     3 => (prop::collection::vec(letter(n as i64), 1..=3), 2usize..=6).prop_map(|(w, e)| { let mut v = vec![]; for _ in 0..e { v.extend(w.iter()); } v }),
+                    2 => (prop::collection::vec(letter(n as i64), 2..=4), 2usize..=3, 1usize..=3).prop_map(|(w, e, cut)| { let mut v = vec![]; for _ in 0..e { v.extend(w.iter()); } v.extend(w[..cut.min(w.len() - 1)].iter()); v }),
                 ];
                 prop::collection::vec(rel, 1..=4).prop_map(move |rels| {
                     let rels: Vec<Word> = rels.into_iter().map(|w| free_reduce(&w)).filter(|w| !w.is_empty()).collect();
